@@ -44,7 +44,11 @@ META = {
 
 BIG = [("E: E '+' E | 'n';", ["n" + "+n" * k for k in (3, 6, 10, 14, 20, 33, 40)]),
        ("E: E E | 'a';", ["a" * k for k in (2, 5, 9, 13)]),
-       ("S: S S S | S S | 'b';", ["b" * k for k in (3, 6, 8)])]
+       ("S: S S S | S S | 'b';", ["b" * k for k in (3, 6, 8)]),
+       # deep forests (left- and right-recursive lists, unambiguous and ambiguous): depth must not matter
+       ("L: L 'x' | 'x';", ["x" * k for k in (50, 400, 1100)]),
+       ("R: 'x' R | 'x';", ["x" * k for k in (200, 400)]),      # (longer ones hit F-GLR-4, C01's subject)
+       ("L: L I | I; I: 'x' | 'x' 'x';", ["x" * k for k in (60, 300)])]
 
 
 def units(tier):
@@ -140,8 +144,14 @@ def check_forest(res, case, num, forest, rng, idx_cap):
             t2 = tree_sexp(num, forest.get_nonlazy_tree(i))
             t3 = tree_sexp(num, forest[i])
         except Exception as e:
-            res["violations"].append({"kind": "in-range-index-raises", "case": case, "index": str(i),
-                                      "len": str(n), "observed": type(e).__name__ + ": " + str(e)[:80]})
+            v = {"kind": "in-range-index-raises", "case": dict(case, input=case["input"][:40] + ("..." if len(case["input"]) > 40 else ""),
+                                                                input_length=len(case["input"])),
+                 "index": str(i), "len": str(n), "observed": type(e).__name__ + ": " + str(e)[:80]}
+            # F-IDX-2: non-lazy tree construction (Tree.__init__/_enumerate_children) and get_first_tree recurse
+            # once per tree level: a forest deeper than CPython's recursion limit cannot be unpacked
+            if isinstance(e, RecursionError) and len(case["input"]) > 250 and len(d.nodes) > 250:
+                v["attribution"] = "tree-extraction-recursion-depth"
+            res["violations"].append(v)
             continue
         if not (t1 == t2 == t3):
             res["violations"].append({"kind": "lazy-vs-nonlazy", "case": case, "index": i,
@@ -150,10 +160,17 @@ def check_forest(res, case, num, forest, rng, idx_cap):
         if t1 in strs:
             dup_trees.append({"i": strs[t1], "j": i, "tree": t1})
         strs[t1] = i
-    f0 = tree_sexp(num, forest.get_first_tree())
-    exp.append((b.add("first", d.root), "tree " + f0, None))
-    if idxs and f0 != tree_sexp(num, forest[0]):
-        res["violations"].append({"kind": "first-vs-zero", "case": case})
+    try:
+        f0 = tree_sexp(num, forest.get_first_tree())
+        exp.append((b.add("first", d.root), "tree " + f0, None))
+        if idxs and f0 != tree_sexp(num, forest[0]):
+            res["violations"].append({"kind": "first-vs-zero", "case": case})
+    except RecursionError as e:
+        v = {"kind": "in-range-index-raises", "case": dict(case, input=case["input"][:40] + "...", input_length=len(case["input"])),
+             "index": "first", "len": str(n), "observed": "RecursionError"}
+        if len(case["input"]) > 250 and len(d.nodes) > 250:
+            v["attribution"] = "tree-extraction-recursion-depth"
+        res["violations"].append(v)
     for i in (n, n + 1, 2 * n + 3, 10 ** 40 + n):
         for getter in (forest.get_tree, forest.get_nonlazy_tree):
             try:
